@@ -332,7 +332,7 @@ class DesignGen:
   def build_comp(self, name, level, is_top):
     rng, be = self.rng, self.be
     c = Comp(self, name, level)
-    if not is_top and rng.random() < 0.45: c.params = [('kp', rng.choice([1, 2, 3, 6]))]   # constructor parameter -> closure constant
+    if not is_top and rng.random() < 0.6: c.params = [('kp', rng.choice([1, 2, 3, 6]))]   # constructor parameter -> closure constant
     yos = be == 'yosys'
     struct_p = self.opts.get('structs', 0.5)
     # ---- ports
@@ -438,10 +438,10 @@ class DesignGen:
     # children
     nchild = 0
     if c.level < self.opts.get('depth', 2) and rng.random() < self.opts.get('child', 0.55):
-      nchild = rng.randint(1, 2) if c.level == 0 else 1      # keep the flattened design small (the Lean store is a list)
+      nchild = rng.choice([1, 2, 2, 2]) if c.level == 0 else 1      # keep the flattened design small (the Lean store is a list)
     prev = None
     for k in range(nchild):
-      if prev is not None and prev.params and rng.random() < 0.6:
+      if prev is not None and prev.params and rng.random() < 0.8:
         ch = prev                                  # a second instance of the same class, constructed with another parameter
         self.features.add('same-class-two-instances')
       else:
@@ -694,6 +694,12 @@ class DesignGen:
     if op == '<<=' and r >= 0.74: r = rng.random() * 0.74      # update_ff: only whole signals on the left of <<=
     E = lambda ww=w, d=depth: eg.expr(ww, d)[0]
     if r < 0.40:
+      if any(x.text == 's.KPB' for x in eg.scope.refs) and rng.random() < 0.6:
+        # a component with constructor parameters: mix a constant of the INSTANCE (attribute / constant subscript) in
+        pk = rng.choice(['s.KP', 'zext(s.KPB, %d)' % w if w > 4 else 's.KPB', 'zext(s.TAB[%d], %d)' % (rng.randint(0, 1), w) if w > 4 else 's.TAB[1]']) \
+             if w >= 4 else f"trunc(s.{rng.choice(['KPB', 'TAB[0]', 'TAB[1]'])}, {w})"
+        self.features.add('instance-const-used')
+        return [f"{tgt} {op} ({eg.nc(w, depth - 1)[0]} {rng.choice('^+')} {pk})"]
       return [f'{tgt} {op} {E()}']
     if r < 0.55:
       self.features.add('if-else')
